@@ -28,6 +28,9 @@ type BFSDef struct {
 	TailDepth int
 	// Optionally shorter bursts (exactly PairDepth's states get all bursts of two) from deeper states.
 	PairDepth int
+	// Prop is the property the search is run for (set by the coordinator): a state whose only problems
+	// belong to other properties is still expanded, so that a consequence that is this property's shows up.
+	Prop string
 }
 
 func (d *BFSDef) tailMoves() []string {
@@ -238,7 +241,13 @@ func RunBFS(def *BFSDef, deadline time.Time) *BFSStats {
 							st.Violations = append(st.Violations, v)
 						}
 					}
-					continue // do not expand states reached through a violation
+					own := def.Prop == ""
+					for _, v := range k.Violations {
+						own = own || v.Property == def.Prop
+					}
+					if own {
+						continue // do not expand states reached through a violation of the property itself
+					}
 				}
 				if !seen[k.Hash] {
 					seen[k.Hash] = true
